@@ -37,20 +37,28 @@ def enc(x) -> int:
     return int(round(v)) if abs(v - round(v)) < 1e-6 else 77777
 
 
-def build_space(t):
+def build_space(t, nudge=None):
+    """nudge: a one-element list used as a flag - the first Box met that has a finite non-zero bound gets that bound moved by 2e-6
+    relative (a different space, however close), and the flag is cleared"""
     k = t["k"]
     if k == "Discrete":
         return Discrete(t["n"])
     if k == "Box":
-        return Box(dec(t["lo"]), dec(t["hi"]), shape=tuple(t["shape"]))
+        lo, hi = dec(t["lo"]), dec(t["hi"])
+        if nudge and nudge[0]:
+            if np.isfinite(hi) and hi != 0:
+                hi, nudge[0] = hi * (1 + 2e-6) if hi > 0 else hi * (1 - 2e-6), False
+            elif np.isfinite(lo) and lo != 0:
+                lo, nudge[0] = lo * (1 + 2e-6) if lo < 0 else lo * (1 - 2e-6), False
+        return Box(lo, hi, shape=tuple(t["shape"]))
     if k == "MultiBinary":
         return MultiBinary(tuple(t["shape"]) if len(t["shape"]) != 1 or t.get("as_tuple") else t["shape"][0])
     if k == "MultiDiscrete":
         return MultiDiscrete(tuple(t["nvec"]))
     if k == "Tuple":
-        return Tuple(tuple(build_space(s) for s in t["subs"]))
+        return Tuple(tuple(build_space(s, nudge) for s in t["subs"]))
     if k == "Dict":
-        return Dict(OrderedDict((key, build_space(s)) for key, s in zip(t["keys"], t["subs"])))
+        return Dict(OrderedDict((key, build_space(s, nudge)) for key, s in zip(t["keys"], t["subs"])))
     raise ValueError(k)
 
 
@@ -323,6 +331,11 @@ def rec_space(t, probes, others, keys, rng) -> list:
             except Exception:  # noqa: BLE001 - the other space's hash is judged in its own trace
                 ev["hash_equal"] = True
         evs.append(ev)
+    # equality is exact in the parameters: the same structure with ONE Box bound moved by 2e-6 relative is another space
+    flag = [True]
+    near = build_space(t, flag)
+    if not flag[0]:
+        evs.append(dict(ev="eq_near", res=bool(space == near), res_sym=bool(near == space)))
     ev = dict(ev="gym", ok=True, eq=False)
     try:
         from lerax.compatibility.gym import gym_space_to_lerax_space, lerax_to_gym_space
